@@ -547,7 +547,7 @@ func genTypes() (string, error) {
 
 	// PrepareForPackager switch arms
 	if fd := fs.funcDecl("PrepareForPackager"); fd != nil {
-		arms := switchArms(fd, "content.Type", func(cc *ast.CaseClause) string {
+		arms := switchArms(fd, ".Type", func(cc *ast.CaseClause) string {
 			// classify arm by characteristic call
 			kind := "nop"
 			for _, st := range cc.Body {
@@ -596,13 +596,13 @@ func genTypes() (string, error) {
 	// per packager switch arms
 	type sw struct{ lean, file, fn, tag string }
 	for _, x := range []sw{
-		{"debDataArms", "deb/deb.go", "createFilesInsideDataTar", "file.Type"},
-		{"debConfArms", "deb/deb.go", "conffiles", "file.Type"},
-		{"ipkDataArms", "ipk/ipk.go", "populateDataTar", "file.Type"},
-		{"ipkConfArms", "ipk/ipk.go", "conffiles", "file.Type"},
-		{"apkDataArms", "apk/apk.go", "createFilesInsideTarGz", "file.Type"},
-		{"archDataArms", "arch/arch.go", "createFilesInTar", "content.Type"},
-		{"rpmDataArms", "rpm/rpm.go", "createFilesInsideRPM", "content.Type"},
+		{"debDataArms", "deb/deb.go", "createFilesInsideDataTar", ".Type"},
+		{"debConfArms", "deb/deb.go", "conffiles", ".Type"},
+		{"ipkDataArms", "ipk/ipk.go", "populateDataTar", ".Type"},
+		{"ipkConfArms", "ipk/ipk.go", "conffiles", ".Type"},
+		{"apkDataArms", "apk/apk.go", "createFilesInsideTarGz", ".Type"},
+		{"archDataArms", "arch/arch.go", "createFilesInTar", ".Type"},
+		{"rpmDataArms", "rpm/rpm.go", "createFilesInsideRPM", ".Type"},
 	} {
 		s, err := parse(x.file)
 		if err != nil {
@@ -625,7 +625,7 @@ func genTypes() (string, error) {
 		if fd := s.funcDecl("createPkginfo"); fd != nil {
 			ast.Inspect(fd, func(n ast.Node) bool {
 				be, ok := n.(*ast.BinaryExpr)
-				if ok && be.Op == token.EQL && fullSel(be.X) == "content.Type" {
+				if ok && be.Op == token.EQL && strings.HasSuffix(fullSel(be.X), ".Type") {
 					types = append(types, resolveCase(fullSel(be.Y), consts))
 				}
 				return true
